@@ -6,10 +6,12 @@ package vrt
 
 import (
 	"fmt"
+	"reflect"
 	"runtime"
 	"runtime/debug"
 	"sort"
 	"strings"
+	"sync"
 	"sync/atomic"
 	"time"
 )
@@ -832,4 +834,34 @@ func (x *Exec) Panics() []*Thread {
 		}
 	}
 	return out
+}
+
+// ---------------------------------------------------------------------------------------------
+// Channels used as close signals (the only blocking channel pattern on the paths the checks
+// drive: service/flv/httpflv.go). The instrumenter rewrites close(ch) and the blocking receive.
+
+var closedChans sync.Map // channel pointer -> generation in which it was closed
+
+// CloseChan replaces close(ch) (reflection: the repository's language version predates generics).
+func CloseChan(ch interface{}) {
+	if Active() != nil {
+		Point("chan.close", nil, nil)
+	}
+	v := reflect.ValueOf(ch)
+	closedChans.Store(v.Pointer(), Gen())
+	v.Close()
+}
+
+// RecvChan replaces a blocking receive `<-ch`: a scheduling point enabled once the channel was
+// closed or holds a buffered value.
+func RecvChan(ch interface{}) {
+	v := reflect.ValueOf(ch)
+	if Active() != nil {
+		key := v.Pointer()
+		Point("chan.recv", nil, func() bool {
+			g, c := closedChans.Load(key) // addresses are reused across executions: compare generations
+			return (c && g.(uint64) == Gen()) || v.Len() > 0
+		})
+	}
+	v.Recv()
 }
